@@ -25,3 +25,152 @@ package nfs
 //@   loop 0 decreases n - bn
 //@   loop 1 invariant m%32768 <= bn && bn <= 32768 && len(blk1) == 4096 && forall k uint64 :: k < 32768 ==> (bitset(blk1, k) <==> ((m/32768 == 0 && k < n) || (m%32768 <= k && k < bn)))
 //@   loop 1 decreases 32768 - bn
+
+// ---------------------------------------------------------------------
+// NFS handlers: every RPC is one transaction. Ghost typestate (lastst):
+// 0 open, 1 committed stable, 2 committed unstable, 3 aborted, 4 commit
+// failed, 6 flushed. quiet() = no inode lock held, no cached inode dirty.
+// ---------------------------------------------------------------------
+//@ predicate nfsInv(nfs *Nfs) = nfs != nil && fsInv(nfs.fsstate) && shrinkInv(nfs.shrinkst) && nfs.shrinkst.fsstate == nfs.fsstate
+//@ specfunc rpcPre(nfs *Nfs) = nfsInv(nfs) && quiet() && !muheld[base(nfs.shrinkst.mu)]
+//@ specfunc rpcPost(nfs *Nfs) = quiet() && !muheld[base(nfs.shrinkst.mu)]
+//@ specfunc heldOnly(a uint64) = forall i uint64 :: held[i] <==> i == a
+//@ specfunc heldOnly2(a uint64, b uint64) = forall i uint64 :: held[i] <==> (i == a || i == b)
+//@ specfunc goodIp(ip *inode.Inode) = ip != nil && held[ip.Inum] && inodeInv(ip) && !dirtyinum[ip.Inum] && ip.Kind != 0
+//@ specfunc matches(ip *inode.Inode, h nfstypes.Nfs_fh3) = ip.Inum == fhIno(h) && ip.Gen == fhGen(h)
+//@ specfunc txOpen(op *fstxn.FsTxn) = op != nil && opOpen(op) && cphase == 0 && dirtyInv() && allocInv()
+
+//@ define TXALLOC fstxn.FsTxn, alloctxn.AllocTxn, jrnl.Op, []uint64, map[uint64]*inode.Inode, cache.Cslot, inode.Inode, buf.Buf, marshal.Dec, marshal.Enc, cell:uint64, []uint8, addr.Addr
+//@ define TXMODS held, lastst, curop, freshinum, wroteinum, cphase, abits, dirtyinum, cache.Cslot.Obj, map[uint64]*inode.Inode
+//@ define SHRINKMODS muheld, inode.Inode.ShrinkSize, []uint64@inode.Inode.blks, []uint64@alloctxn.AllocTxn.freeBnums, alloctxn.AllocTxn.freeBnums, buf.Buf.dirty, []uint8
+//@ define FILEMODS inode.Inode.Size, inode.Inode.ShrinkSize, inode.Inode.Atime, inode.Inode.Mtime, inode.Inode.Kind, inode.Inode.Nlink, inode.Inode.Gen, inode.Inode.Inum, inode.Inode.Dcache, []uint64@inode.Inode.blks, alloctxn.AllocTxn.allocBnums, []uint64@alloctxn.AllocTxn.allocBnums, alloctxn.AllocTxn.freeBnums, []uint64@alloctxn.AllocTxn.freeBnums, alloctxn.AllocTxn.allocInums, []uint64@alloctxn.AllocTxn.allocInums, alloctxn.AllocTxn.freeInums, []uint64@alloctxn.AllocTxn.freeInums, buf.Buf.dirty, []uint8
+//@ define DIRMODS dnames, dcache.Dcache.Lastoff, nfstypes.Entry3, cell:*nfstypes.Entry3, nfstypes.Entryplus3, cell:*nfstypes.Entryplus3, map[string]dcache.Dentry, emitted, emitany, emitlast
+//@ define DIRALLOC dir.dirEnt, dcache.Dcache, map[string]dcache.Dentry, nfstypes.Entry3, nfstypes.Entryplus3
+// a transaction that may be ended either way: open, and every held inode is in sync with it
+//@ specfunc endable(op *fstxn.FsTxn) = txOpen(op) && (forall i uint64 :: held[i] ==> !dirtyinum[i])
+
+// getShrink: a validated, locked, not-shrinking inode in an open transaction, or an error with nothing held.
+//@ spec (*Nfs).getShrink
+//@   props C05 C06 C03 C08 C09 C11 C01
+//@   requires rpcPre(nfs)
+//@   allocates fstxn.FsTxn, alloctxn.AllocTxn, jrnl.Op, []uint64, map[uint64]*inode.Inode, cache.Cslot, inode.Inode, buf.Buf, marshal.Dec, marshal.Enc, cell:uint64, []uint8, addr.Addr
+//@   modifies held, lastst, curop, freshinum, wroteinum, cphase, abits, dirtyinum, muheld, cache.Cslot.Obj, map[uint64]*inode.Inode, inode.Inode.ShrinkSize, []uint64@inode.Inode.blks, []uint64@alloctxn.AllocTxn.freeBnums, alloctxn.AllocTxn.freeBnums, buf.Buf.dirty, []uint8
+//@   ensures [open] txOpen(result0) && result0.Fs == nfs.fsstate && !muheld[base(nfs.shrinkst.mu)] @C09
+//@   ensures [H1-validated] result2 == 0 ==> goodIp(result1) && matches(result1, fh) && heldOnly(result1.Inum) @C08
+//@   ensures [F6-notshrinking] result2 == 0 ==> !result1.IsShrinking() @C05
+//@   ensures [err-nolocks] result2 != 0 ==> noLocks() @C06 @C09
+//@   loop 0 invariant nfsInv(nfs) && noLocks() && dirtyInv() && allocInv() && !muheld[base(nfs.shrinkst.mu)]
+
+//@ specfunc bigMods() = true
+//@ spec (*Nfs).NFSPROC3_GETATTR
+//@   props C01 C02 C03 C06 C08 C09 C10 C11 C14
+//@   requires rpcPre(nfs)
+//@   allocates fstxn.FsTxn, alloctxn.AllocTxn, jrnl.Op, []uint64, map[uint64]*inode.Inode, cache.Cslot, inode.Inode, buf.Buf, marshal.Dec, marshal.Enc, cell:uint64, []uint8, addr.Addr, nfstypes.GETATTR3res
+//@   modifies held, lastst, curop, freshinum, wroteinum, cphase, abits, dirtyinum, cache.Cslot.Obj, map[uint64]*inode.Inode
+//@   ensures [R2-durable] result.Status == 0 ==> lastst == 1 @C01
+//@   ensures [A1-aborted] result.Status != 0 ==> lastst == 3 || lastst == 4 @C09
+//@   ensures [Fn6-status] result.Status == 0 || result.Status == 70 || result.Status == 10006 @C02
+//@   ensures [H3-fileid] result.Status == 0 ==> uint64(result.Resok.Obj_attributes.Fileid) == fhIno(args.Object) @C08 @C02
+//@   ensures [L2-quiet] rpcPost(nfs) @C03 @C06 @C14
+
+
+//@ spec (*Nfs).doRead
+//@   props C02 C08 C09 C10 C11 C06
+//@   requires rpcPre(nfs)
+//@   requires [count32] count <= 4294967296 @C11
+//@   allocates $TXALLOC
+//@   modifies $TXMODS, $FILEMODS
+//@   ensures [open] endable(result0) && result0.Fs == nfs.fsstate && !muheld[base(nfs.shrinkst.mu)] @C09
+//@   ensures [Fn6-stale] result3 == 0 || result3 == 70 || result3 == 22 @C02
+//@   ensures [Fn1-len] result3 == 0 ==> len(result1) <= count || len(result1) <= 1073774592 @C02 @C11
+
+//@ spec (*Nfs).NFSPROC3_READ
+//@   props C01 C02 C03 C06 C08 C09 C10 C11 C14
+//@   requires rpcPre(nfs)
+//@   allocates $TXALLOC, nfstypes.READ3res
+//@   modifies $TXMODS, $FILEMODS
+//@   ensures [R2-durable] result.Status == 0 ==> lastst == 1 @C01
+//@   ensures [A1-aborted] result.Status != 0 ==> lastst == 3 || lastst == 4 @C09
+//@   ensures [Fn1-count] result.Status == 0 ==> uint64(result.Resok.Count) == len(result.Resok.Data) @C02
+//@   ensures [L2-quiet] rpcPost(nfs) @C03 @C06 @C14
+
+//@ spec (*Nfs).NFSPROC3_READLINK
+//@   props C01 C02 C03 C06 C08 C09 C10 C11 C14
+//@   requires rpcPre(nfs)
+//@   allocates $TXALLOC, nfstypes.READLINK3res
+//@   modifies $TXMODS, $FILEMODS
+//@   ensures [R2-durable] result.Status == 0 ==> lastst == 1 @C01
+//@   ensures [A1-aborted] result.Status != 0 ==> lastst == 3 || lastst == 4 @C09
+//@   ensures [L2-quiet] rpcPost(nfs) @C03 @C06 @C14
+
+// W3 (C07): COMMIT flushes the log.
+//@ spec (*Nfs).NFSPROC3_COMMIT
+//@   props C01 C03 C06 C07 C08 C09 C11 C14
+//@   requires rpcPre(nfs)
+//@   allocates $TXALLOC, nfstypes.COMMIT3res
+//@   modifies $TXMODS
+//@   ensures [W3-flushed] result.Status == 0 ==> lastst == 6 @C07
+//@   ensures [A1-aborted] result.Status != 0 ==> lastst == 3 || lastst == 4 @C09
+//@   ensures [L2-quiet] rpcPost(nfs) @C03 @C06 @C14
+
+// C07 W1/W2/W6, C19 Q2/Q3, C11: WRITE.
+//@ spec (*Nfs).NFSPROC3_WRITE
+//@   props C01 C02 C03 C05 C06 C07 C08 C09 C10 C11 C14 C19
+//@   requires rpcPre(nfs)
+//@   allocates $TXALLOC, nfstypes.WRITE3res, nfstypes.WRITE3args
+//@   modifies $TXMODS, $FILEMODS, $SHRINKMODS
+//@   ensures [W1-stable] result.Status == 0 && result.Resok.Committed != 0 ==> lastst == 1 @C07 @C01
+//@   ensures [W1-unstable] result.Status == 0 ==> lastst == 1 || lastst == 2 @C07
+//@   ensures [W1-level] result.Status == 0 ==> result.Resok.Committed == args.Stable || result.Resok.Committed == 2 @C07
+//@   ensures [W2-nounstable] result.Status == 0 && !nfs.Unstable ==> lastst == 1 && result.Resok.Committed == 2 @C07
+//@   ensures [A1-aborted] result.Status != 0 ==> lastst == 3 || lastst == 4 @C09
+//@   ensures [Q2-wtmax] uint64(args.Count) >= 2093056 ==> result.Status != 0 @C19
+//@   ensures [Q3-maxfile] uint64(args.Offset) + uint64(args.Count) < uint64(args.Offset) || uint64(args.Offset) + uint64(args.Count) > 1073774592 ==> result.Status != 0 @C19 @C11
+//@   ensures [W6-count] result.Status == 0 ==> uint64(result.Resok.Count) <= uint64(args.Count) && uint64(args.Count) <= len(args.Data) @C07 @C11 @C02
+//@   ensures [L2-quiet] rpcPost(nfs) @C03 @C06 @C14
+
+// Fn3 (C02), Q3 (C19): SETATTR.
+//@ spec (*Nfs).NFSPROC3_SETATTR
+//@   props C01 C02 C03 C05 C06 C08 C09 C10 C11 C14 C19 C12
+//@   requires rpcPre(nfs)
+//@   allocates $TXALLOC, nfstypes.SETATTR3res, struct:struct{}
+//@   modifies $TXMODS, $FILEMODS, $SHRINKMODS, shrinker.ShrinkerSt.nthread
+//@   ensures [R2-durable] result.Status == 0 ==> lastst == 1 @C01
+//@   ensures [A1-aborted] result.Status != 0 ==> lastst == 3 || lastst == 4 @C09
+//@   ensures [Q3-fbig] args.New_attributes.Size.Set_it && uint64(args.New_attributes.Size.Size) > 1073774592 ==> result.Status != 0 @C19
+//@   ensures [Fn3-size] result.Status == 0 && args.New_attributes.Size.Set_it ==> uint64(result.Resok.Obj_wcc.After.Attributes.Size) == uint64(args.New_attributes.Size.Size) @C02
+//@   ensures [L2-quiet] rpcPost(nfs) @C03 @C06 @C14
+
+// Fn6 (C02): procedures that are not supported fail without touching anything.
+//@ spec (*Nfs).NFSPROC3_NULL
+//@   props C02 C11
+//@ spec (*Nfs).NFSPROC3_ACCESS
+//@   props C02 C11
+//@   allocates nfstypes.ACCESS3res
+//@   ensures result.Status == 0
+//@ spec (*Nfs).NFSPROC3_MKNOD
+//@   props C02 C11
+//@   allocates nfstypes.MKNOD3res
+//@   ensures [Fn6-notsupp] result.Status == 10004 @C02
+//@ spec (*Nfs).NFSPROC3_LINK
+//@   props C02 C11
+//@   allocates nfstypes.LINK3res
+//@   ensures [Fn6-notsupp] result.Status == 10004 @C02
+//@ spec (*Nfs).NFSPROC3_FSSTAT
+//@   props C02 C11
+//@   allocates nfstypes.FSSTAT3res
+//@   ensures [Fn6-notsupp] result.Status == 10004 @C02
+
+// Q1-Q3 (C19): the announced limits are the constants the guards enforce.
+//@ spec (*Nfs).NFSPROC3_PATHCONF
+//@   props C19 C02 C11
+//@   allocates nfstypes.PATHCONF3res
+//@   ensures [Q1-namemax] result.Status == 0 && result.Resok.Name_max == 112 && result.Resok.No_trunc @C19
+//@ spec (*Nfs).NFSPROC3_FSINFO
+//@   props C19 C01 C02 C03 C06 C09 C11
+//@   requires rpcPre(nfs)
+//@   allocates $TXALLOC, nfstypes.FSINFO3res
+//@   modifies $TXMODS
+//@   ensures [Q3-maxfilesize] result.Status == 0 ==> uint64(result.Resok.Maxfilesize) == 1073774592 @C19
+//@   ensures [Q2-wtmax] result.Status == 0 ==> result.Resok.Wtmax == 2093056 @C19
+//@   ensures [L2-quiet] rpcPost(nfs) @C03 @C06
